@@ -122,6 +122,7 @@ type semResp struct {
 	// what the handler told its Stats / Logger while serving this query (only with opts.record)
 	Counters   map[string]int `json:"counters,omitempty"`
 	TypeKeys   int            `json:"typekeys"`
+	TypeKeyNamed int          `json:"typekeynamed"` // increments of DNS_query.<mnemonic of the qtype> (TYPE<n> when it has none)
 	NLog       int            `json:"nlog"`
 	NLogFailed int            `json:"nlogfailed"`
 	LogSame    bool           `json:"logsame"`
@@ -223,6 +224,14 @@ func (r *semRec) LogFailed(request.Request, *dns.Msg, *dns.EDNS0_SUBNET) {
 	r.mu.Lock()
 	r.nfail++
 	r.mu.Unlock()
+}
+
+// semTypeKey: the exported name of the per-type query counter, from miekg's type table (not from the handler's)
+func semTypeKey(t uint16) string {
+	if n, ok := dns.TypeToString[t]; ok {
+		return dnsserver.TypeToStatsPrefix + "." + n
+	}
+	return fmt.Sprintf("%s.TYPE%d", dnsserver.TypeToStatsPrefix, t)
 }
 
 type semNullStats struct{}
@@ -411,6 +420,9 @@ func semServe(b *semBackend, in *semIn) (resp semResp) {
 				resp.Counters[k] = v
 				if strings.HasPrefix(k, dnsserver.TypeToStatsPrefix+".") {
 					resp.TypeKeys += v
+				}
+				if k == semTypeKey(req.Question[0].Qtype) {
+					resp.TypeKeyNamed += v
 				}
 			}
 			resp.NLog, resp.NLogFailed, resp.LogSame = b.rec.nlog, b.rec.nfail, b.rec.logSame
